@@ -283,7 +283,7 @@ Section Witness.
     assert (W' : wf_dom (dbelow (mid + 1) d)) by (apply wf_dom_dbelow; auto).
     exists (fupd s p (VI (dbelow (mid + 1) d))), [p].
     assert (E1 : fprune (right_prop p (VlI mid)) (s, []) = Some (fupd s p (VI (dbelow (mid + 1) d)), [p])).
-    { simpl. unfold prune_flt. unfold int_below_float_var. simpl. rewrite Hg. simpl.
+    { simpl. unfold prune_flt. unfold int_below_float_var, int_below_float_const, float_const_below_int. simpl. rewrite Hg. simpl.
       unfold prune_fleq. simpl. unfold under_interval. simpl. rewrite Hg. simpl.
       replace (mid <=? dmax d - 1)%Z with true by (symmetry; apply Z.leb_le; lia).
       unfold xset_min. simpl. rewrite Hg. simpl. unfold dset_min.
@@ -304,7 +304,7 @@ Section Witness.
       { assert (In (dmin d2) d2) by (apply dmin_In; apply W2). apply Hin in H. apply dbelow_In in H. tauto. }
       assert (Hmax : (mid + 1 <= dmax d2)%Z) by (generalize (dmin_le_dmax d2 W2); lia).
       exists s2, []. split; [|split; auto using sle_refl].
-      simpl. unfold prune_flt. unfold int_below_float_var. simpl. rewrite Hg2. simpl.
+      simpl. unfold prune_flt. unfold int_below_float_var, int_below_float_const, float_const_below_int. simpl. rewrite Hg2. simpl.
       unfold prune_fleq. simpl. unfold under_interval. simpl. rewrite Hg2. simpl.
       replace (mid <=? dmax d2 - 1)%Z with true by (symmetry; apply Z.leb_le; lia).
       unfold xset_min. simpl. rewrite Hg2. simpl. unfold dset_min.
@@ -399,7 +399,7 @@ Section Witness.
   Proof. reflexivity. Qed.
   Lemma right_prop_float : forall s p m i, fget s p = VF i -> fprune (right_prop p (VlF m)) (s, []) =
     if fle m (imax i) then xset_min p (VlF m) (s, []) else None.
-  Proof. intros s p m i Hg. unfold right_prop, mk_fgt, mk_flt. cbn [fprune]. unfold prune_flt, int_below_float_var.
+  Proof. intros s p m i Hg. unfold right_prop, mk_fgt, mk_flt. cbn [fprune]. unfold prune_flt, int_below_float_var, int_below_float_const, float_const_below_int.
     cbn [fv_is_float negb andb]. unfold prune_fleq. cbn [fv_set_max fv_set_min fv_max fv_min fst].
     unfold next_target, next_bound, under_interval. cbn [fv_under fv_is_float]. rewrite Hg. cbn [var_max var_min].
     unfold val_ge, val_le. cbn [as_f]. destruct (fle m (imax i)); reflexivity. Qed.
